@@ -44,12 +44,14 @@ def plan(tier, seed):
     specs = [{"name": f"rt-{i}", "kind": "roundtrip", "n": 1300 if q else 60000} for i in range(8)]
     specs += [{"name": f"term-{i}", "kind": "terminate", "n": 5000 if q else 120000, "mem": not q} for i in range(8)]
     specs.append({"name": "residues", "kind": "residues"})
+    specs.append({"name": "scaling", "kind": "scaling", "repeats": 5 if q else 15})
+    specs.append({"name": "wide-fields", "kind": "wide", "n": 400 if q else 20000})
     return specs
 
 
 def finalize(agg, tier):
     r = []
-    for c in ("rt_bind", "rt_bind_ack", "rt_bind_nak", "rt_alter_context", "rt_alter_context_resp", "rt_request", "rt_response", "rt_fault", "rt_sectrailer", "rt_vt", "rt_eptmap", "rt_eptmapresult", "rt_floor", "decoder_runs_metered"):
+    for c in ("rt_bind", "rt_bind_ack", "rt_bind_nak", "rt_alter_context", "rt_alter_context_resp", "rt_request", "rt_response", "rt_fault", "rt_sectrailer", "rt_vt", "rt_eptmap", "rt_eptmapresult", "rt_floor", "decoder_runs_metered", "scaling_probes", "rt_wide"):
         if agg.counter(c) == 0:
             r.append(f"monitor never reached: {c}")
     if len(agg.sets.get("sec_addr_len_mod4", ())) < 4 or len(agg.sets.get("tower_len_mod8", ())) < 8:
@@ -528,10 +530,240 @@ def run_terminate(spec, rec: Recorder):
     rec.sample({"kind": "terminate", "decoder": name, "len": len(data), "steps": mon.STEPS.n, "outcome": outcome, "data": data})
 
 
+# --------------------------------------------------------------------------- proportional work (scaling probes)
+def scalable_inputs() -> t.Dict[str, t.Tuple[str, t.Callable[[int], bytes]]]:
+    """decoder name -> builder(n) producing a well-formed-looking input with n small elements (len ~ proportional to n)."""
+
+    def vt(n):
+        return rrpc.VT_SIGNATURE + struct.pack("<HH", 1, 0) * (n - 1) + struct.pack("<HH", 1 | 0x4000, 0)
+
+    def bind(n):
+        ctx = struct.pack("<HBB", 0, 0, 0)[:2] + struct.pack("<H", n) + rrpc.enc_syntax(rrpc.EPM) + rrpc.enc_syntax(rrpc.NDR64) * n
+        body = struct.pack("<HHIBBH", 5840, 5840, 0, 1, 0, 0) + ctx
+        return rrpc.header(rrpc.BIND, 3, 16 + len(body), 0, 1) + body
+
+    def bind_many_ctx(n):
+        n = min(n, 255)
+        ctx = (struct.pack("<HH", 1, 1) + rrpc.enc_syntax(rrpc.EPM) + rrpc.enc_syntax(rrpc.NDR64)) * n
+        body = struct.pack("<HHIBBH", 5840, 5840, 0, n, 0, 0) + ctx
+        return rrpc.header(rrpc.BIND, 3, 16 + len(body), 0, 1) + body
+
+    def eptmap_floors(n):
+        return repm.enc_request(None, [(0x7F, b"", b"")] * n, None, 4)
+
+    def eptres_floors(n):
+        return repm.enc_response([[(0x7F, b"", b"")] * n], 0)
+
+    def eptres_towers(n):
+        return repm.enc_response([[(0x7F, b"", b"x")]] * n, 0)
+
+    def response(n):
+        return rrpc.encode(dict(ptype=rrpc.RESPONSE, flags=3, call_id=1, auth=None, alloc_hint=0, ctx_id=0, cancel_count=0, stub=bytes(5 * n)))
+
+    return {
+        "VerificationTrailer.unpack/commands": ("VerificationTrailer.unpack", vt),
+        "PDU.unpack/bind-transfer-syntaxes": ("PDU.unpack", bind),
+        "EptMap.unpack/floors": ("EptMap.unpack", eptmap_floors),
+        "EptMapResult.unpack/floors": ("EptMapResult.unpack", eptres_floors),
+        "EptMapResult.unpack/towers": ("EptMapResult.unpack", eptres_towers),
+        "PDU.unpack/response-stub": ("PDU.unpack", response),
+    }
+
+
+def run_scaling(spec, rec: Recorder):
+    """Work proportional to the input length: line events AND CPU time must scale (at most) linearly when the
+    same kind of input grows 4x (n -> 4n, up to the 64 KiB fragment limit).  CPU time is thread time, minimum of
+    several repeats, and a super-linear ratio must reproduce in three independent re-measurements before it is
+    reported (copy-the-rest-of-the-buffer-per-element bugs execute a linear number of lines but quadratic work)."""
+    import time
+
+    decs = decoders()
+
+    def measure(fn, data, repeats):
+        best = None
+        for _ in range(repeats):
+            t0 = time.thread_time_ns()
+            try:
+                fn(data)
+            except Exception:
+                pass
+            dt = time.thread_time_ns() - t0
+            best = dt if best is None else min(best, dt)
+        return best
+
+    for name, (dec, build) in scalable_inputs().items():
+        fn = decs[dec]
+        n_small, n_big = 700, 2800
+        small, big = build(n_small), build(n_big)
+        if len(big) > 65535:
+            n_small, n_big = 500, 2000
+            small, big = build(n_small), build(n_big)
+        # line events
+        steps = []
+        for data in (small, big):
+            try:
+                with mon.STEPS.measure(3000 + 40 * len(data)):
+                    fn(data)
+            except mon.StepBudgetExceeded as e:
+                rec.violation("decoder-step-budget", f"{name}: {len(data)}-byte input exceeded the linear step budget at {e}", {"kind": "scaling", "probe": name, "n": n_big})
+            except Exception:
+                pass
+            steps.append(mon.STEPS.n)
+        rec.count("decoder_runs_metered", 2)
+        ratio_len = len(big) / max(1, len(small))
+        step_ratio = steps[1] / max(1, steps[0])
+        rec.range(f"step_ratio_x100[{name}]", int(100 * step_ratio))
+        if step_ratio > 1.6 * ratio_len:
+            rec.violation("superlinear-steps", f"{name}: input grew {ratio_len:.1f}x, executed lines grew {step_ratio:.1f}x ({steps})", {"kind": "scaling", "probe": name})
+        # CPU time
+        tries = []
+        for attempt in range(4):
+            ts, tb = measure(fn, small, spec["repeats"]), measure(fn, big, spec["repeats"])
+            r = tb / max(1, ts)
+            tries.append(round(r, 2))
+            if r <= 2.2 * ratio_len:
+                break
+        rec.range(f"cpu_ratio_x100[{name}]", int(100 * min(tries)))
+        rec.count("scaling_probes")
+        if len(tries) == 4 and min(tries) > 2.2 * ratio_len:
+            rec.violation("superlinear-work", f"{name}: input grew {ratio_len:.1f}x but CPU time grew {tries}x in four independent measurements", {"kind": "scaling", "probe": name})
+        rec.case(("scaling", name, n_big), nontrivial=True, sample={"probe": name, "len_small": len(small), "len_big": len(big), "steps": steps, "cpu_ratio": tries})
+
+
+# --------------------------------------------------------------------------- wide field ranges
+def run_wide(spec, rec: Recorder):
+    """Well-formed messages with field values outside the everyday ranges."""
+    r = R()
+    from dpapi_ng._rpc import _pdu, _verification as v
+
+    rng = common.rng_for(ID, spec)
+    for i in range(spec["n"]):
+        k = i % 9
+        if k == 0:  # many contexts (u8 count) / many transfer syntaxes
+            n = rng.choice([9, 64, 255])
+            m = dict(ptype=rng.choice([rrpc.BIND, rrpc.ALTER_CONTEXT]), flags=3, call_id=rng.choice([2**15, 2**31, 2**32 - 1]), auth=g_auth(rng), max_xmit=65535, max_recv=0, assoc=2**32 - 1)
+            m["contexts"] = [(rng.choice([2**15, 65535, j]), g_syntax(rng), [g_syntax(rng) for _ in range(rng.choice([0, 1, 5, 40] if n < 64 else [0, 1, 2]))]) for j in range(n)]
+            try:
+                raw = rrpc.encode(m)
+            except struct.error:
+                continue  # does not fit one fragment
+            cls = r.Bind if m["ptype"] == rrpc.BIND else r.AlterContext
+            obj = cls(header=lib_header(m, len(raw)), sec_trailer=lib_auth(m["auth"]), max_xmit_frag=m["max_xmit"], max_recv_frag=m["max_recv"], assoc_group=m["assoc"], contexts=[r.ContextElement(c, r.SyntaxId(*a), [r.SyntaxId(*x) for x in ts]) for c, a, ts in m["contexts"]])
+            kind = "bind" if m["ptype"] == rrpc.BIND else "alter_context"
+        elif k == 1:  # many results, long / non-ASCII secondary address
+            m = dict(ptype=rng.choice([rrpc.BIND_ACK, rrpc.ALTER_CONTEXT_RESP]), flags=rng.choice([3, 7, 0xFF]), call_id=rng.randrange(2**32), auth=g_auth(rng), max_xmit=1, max_recv=65535, assoc=rng.randrange(2**32))
+            m["sec_addr"] = rng.choice(["p" * 254, "q" * 255, "\\pipe\\" + "é" * 40, "ü", "x" * 2000, "中" * 100])
+            m["results"] = [(rng.choice([0, 1, 2, 3]), rng.choice([0, 65535]), g_uuid(rng), rng.choice([0, 2**32 - 1])) for _ in range(rng.choice([7, 40, 255]))]
+            raw = rrpc.encode(m)
+            cls = r.BindAck if m["ptype"] == rrpc.BIND_ACK else r.AlterContextResponse
+            obj = cls(header=lib_header(m, len(raw)), sec_trailer=lib_auth(m["auth"]), max_xmit_frag=m["max_xmit"], max_recv_frag=m["max_recv"], assoc_group=m["assoc"], sec_addr=m["sec_addr"], results=[r.ContextResult(r.ContextResultCode(a), b, c, d) for a, b, c, d in m["results"]])
+            kind = "bind_ack" if m["ptype"] == rrpc.BIND_ACK else "alter_context_resp"
+        elif k == 2:  # large auth tokens, big stubs
+            tok = rng.randbytes(rng.choice([255, 256, 1000, 5000]))
+            m = dict(ptype=rrpc.REQUEST, flags=3, call_id=2**31, auth=dict(type=16, level=6, pad=255, ctx=2**32 - 1, token=tok), alloc_hint=2**32 - 1, ctx_id=65535, opnum=65535, obj=None, stub=rng.randbytes(rng.choice([4097, 20000, 50000])))
+            raw = rrpc.encode(m)
+            obj = r.Request(header=lib_header(m, len(raw)), sec_trailer=lib_auth(m["auth"]), alloc_hint=m["alloc_hint"], context_id=m["ctx_id"], opnum=m["opnum"], obj=None, stub_data=m["stub"])
+            kind = "request"
+        elif k == 3:  # data representation / version_minor variants in the header
+            drep_vals = (rng.choice([0, 1]), rng.choice([0, 1]), rng.choice([0, 1, 2, 3]))
+            hdr = r.PDUHeader(5, rng.choice([0, 1]), r.PacketType.RESPONSE, r.PacketFlags(rng.choice([0, 3, 0x23, 0xFF])), r.DataRep(_pdu.IntegerRep(drep_vals[0]), _pdu.CharacterRep(drep_vals[1]), _pdu.FloatingPointRep(drep_vals[2])), 24, 0, rng.randrange(2**32))
+            want = struct.pack("<BBBBBBHHHI", 5, hdr.version_minor, 2, int(hdr.packet_flags), (drep_vals[0] << 4) | drep_vals[1], drep_vals[2], 0, 24, 0, hdr.call_id)
+            got = hdr.pack()
+            back = r.PDUHeader.unpack(got)
+            if got != want or back != hdr or back.pack() != got:
+                rec.violation("header-fields", f"PDUHeader with drep {drep_vals}, version_minor {hdr.version_minor}: pack/unpack not inverse or layout wrong", {"kind": "wide", "ref_bytes": want})
+            rec.count("rt_wide")
+            rec.case(("wide-header", want))
+            continue
+        elif k == 4:  # verification trailer: MUST_PROCESS flags, big command values
+            cmds_ref, cmds_lib = [], []
+            for j in range(rng.choice([1, 7, 30])):
+                flags = 0x8000 if rng.random() < 0.5 else 0
+                val = rng.randbytes(rng.choice([0, 1, 255, 4000]))
+                cmds_ref.append((rng.choice([9, 0x3FFF]) | flags, val))
+                cmds_lib.append(v.Command(v.CommandType(cmds_ref[-1][0] & 0x3FFF), v.CommandFlags(flags), val))
+            cmds_ref[-1] = (cmds_ref[-1][0] | 0x4000, cmds_ref[-1][1])
+            cmds_lib[-1] = v.Command(cmds_lib[-1].command, v.CommandFlags((cmds_ref[-1][0] & 0xC000)), cmds_lib[-1].value)
+            want = rrpc.enc_vt(cmds_ref)
+            obj = v.VerificationTrailer(cmds_lib)
+            try:
+                got = obj.pack()
+                back = v.VerificationTrailer.unpack(got)
+                if got != want or sem(back) != sem(obj) or back.pack() != got:
+                    rec.violation("vt-fields", "wide verification trailer not inverse / layout wrong", {"kind": "wide", "ref_bytes": want})
+            except Exception as e:
+                rec.violation("vt-exception", f"{type(e).__name__}: {e}", {"kind": "wide", "ref_bytes": want})
+            rec.count("rt_wide")
+            rec.case(("wide-vt", want))
+            continue
+        elif k == 5:  # floors with long lhs / rhs, towers with many floors, entry handle attributes, max_towers
+            e = E()
+            floors_ref = [(rng.choice([0x7F, 0xFE, 0x1F]), rng.randbytes(rng.choice([0, 255, 1000])), rng.randbytes(rng.choice([0, 255, 3000]))) for _ in range(rng.choice([1, 7, 60, 255]))]
+            floors_lib = [e.Floor(e.FloorProtocol(p), l, rr) for p, l, rr in floors_ref]
+            eh = (rng.choice([1, 2**31, 2**32 - 1]), g_uuid(rng))
+            mt = rng.choice([0, 500, 2**31, 2**32 - 1])
+            obj_u = uuid.UUID(int=rng.getrandbits(128) | 1)
+            want = repm.enc_request(obj_u, floors_ref, eh, mt)
+            lib = e.EptMap(obj=obj_u, tower=floors_lib, entry_handle=eh, max_towers=mt)
+            try:
+                got = lib.pack()
+                back = e.EptMap.unpack(got)
+                if got != want or sem(back) != sem(lib) or back.pack() != got:
+                    rec.violation("eptmap-fields", f"wide ept_map request ({len(floors_ref)} floors) not inverse / layout wrong", {"kind": "wide", "ref_bytes": want})
+                res_want = repm.enc_response([floors_ref, floors_ref[:1]], rng.choice([0, 2**32 - 1]), eh)
+                res_lib = e.EptMapResult(entry_handle=eh, towers=[floors_lib, floors_lib[:1]], status=int.from_bytes(res_want[-4:], "little"))
+                res_got = res_lib.pack()
+                res_back = e.EptMapResult.unpack(res_got)
+                if res_got != res_want or sem(res_back) != sem(res_lib) or res_back.pack() != res_got:
+                    rec.violation("eptmapresult-fields", f"wide ept_map result ({len(floors_ref)} floors) not inverse / layout wrong", {"kind": "wide", "ref_bytes": res_want})
+            except Exception as ex:
+                rec.violation("eptmap-exception", f"{type(ex).__name__}: {ex}", {"kind": "wide", "ref_bytes": want})
+            rec.count("rt_wide")
+            rec.case(("wide-epm", want))
+            continue
+        elif k == 6:  # fault / response field extremes
+            m = dict(ptype=rrpc.FAULT, flags=0xFF & ~0x80, call_id=2**32 - 1, auth=g_auth(rng), alloc_hint=2**32 - 1, ctx_id=65535, cancel_count=255, fault_flags=1, status=2**32 - 1, stub=rng.randbytes(rng.choice([0, 1, 5000])))
+            raw = rrpc.encode(m)
+            obj = r.Fault(header=lib_header(m, len(raw)), sec_trailer=lib_auth(m["auth"]), alloc_hint=m["alloc_hint"], context_id=m["ctx_id"], cancel_count=255, status=m["status"], flags=_pdu.FaultFlags(1), stub_data=m["stub"])
+            kind = "fault"
+        elif k == 7:
+            m = dict(ptype=rrpc.RESPONSE, flags=rng.choice([0, 1, 2, 0x7F]), call_id=2**31, auth=g_auth(rng), alloc_hint=2**31, ctx_id=2**15, cancel_count=rng.choice([1, 128, 255]), stub=rng.randbytes(rng.choice([0, 65000 - 100])))
+            raw = rrpc.encode(m)
+            if len(raw) > 65535:
+                continue
+            obj = r.Response(header=lib_header(m, len(raw)), sec_trailer=lib_auth(m["auth"]), alloc_hint=m["alloc_hint"], context_id=m["ctx_id"], cancel_count=m["cancel_count"], stub_data=m["stub"])
+            kind = "response"
+        else:  # bind_nak with many versions
+            m = dict(ptype=rrpc.BIND_NAK, flags=3, call_id=7, auth=None, reason=65535, versions=[(rng.randrange(256), rng.randrange(256)) for _ in range(rng.choice([6, 100, 255]))])
+            raw = rrpc.encode(m)
+            obj = r.BindNak(header=lib_header(m, len(raw)), sec_trailer=None, reject_reason=65535, versions=[tuple(x) for x in m["versions"]])
+            kind = "bind_nak"
+        want = rrpc.encode(m)
+        wit = {"kind": "wide-" + kind, "ref_bytes": want}
+        try:
+            got = obj.pack()
+            if got != want:
+                i2 = next((q for q, (x, y) in enumerate(zip(got, want)) if x != y), min(len(got), len(want)))
+                rec.violation(f"{kind}-layout", f"wide {kind}: pack differs from the reference at byte {i2} (len {len(got)}/{len(want)})", wit)
+                continue
+            back = _pdu.PDU.unpack(got)
+            if type(back) is not type(obj) or sem(back) != sem(obj):
+                a, b = sem(back)[1], sem(obj)[1]
+                rec.violation(f"{kind}-fields", f"wide {kind}: unpack(pack(m)) differs in {[f for f in b if a.get(f) != b.get(f)]}", wit)
+                continue
+            if back.pack() != got:
+                rec.violation(f"{kind}-repack", f"wide {kind}: repack differs", wit)
+        except Exception as e:
+            rec.violation(f"{kind}-exception", f"wide {kind}: {type(e).__name__}: {e}", wit)
+        rec.count("rt_wide")
+        rec.case(("wide", kind, want[:64], len(want)))
+    rec.sample({"kind": "wide field ranges", "n": spec["n"]})
+
+
 def run_shard(spec, rec: Recorder):
     if not common.calibrate(rec, "rpc", "epm"):
         return
-    {"roundtrip": run_roundtrip, "terminate": run_terminate, "residues": run_residues}[spec["kind"]](spec, rec)
+    {"roundtrip": run_roundtrip, "terminate": run_terminate, "residues": run_residues, "scaling": run_scaling, "wide": run_wide}[spec["kind"]](spec, rec)
 
 
 def replay(body, rec: Recorder):
